@@ -113,12 +113,10 @@ public:
                             map_basic_basic d2
                                 = down_cast<const Mul &>(*term).get_dict();
                             term = Mul::from_dict(one, std::move(d2));
-                            Add::dict_add_term(
-                                d_, _mulnum(_mulnum(temp, q.second), coef2),
-                                term);
+                            _add_product_term(
+                                _mulnum(_mulnum(temp, q.second), coef2), term);
                         } else {
-                            Add::dict_add_term(d_, _mulnum(temp, q.second),
-                                               term);
+                            _add_product_term(_mulnum(temp, q.second), term);
                         }
                     }
                 }
@@ -164,12 +162,10 @@ public:
                         map_basic_basic d2
                             = down_cast<const Mul &>(*term).get_dict();
                         term = Mul::from_dict(one, std::move(d2));
-                        Add::dict_add_term(
-                            d_, _mulnum(_mulnum(q.second, a_coef), coef2),
-                            term);
+                        _add_product_term(
+                            _mulnum(_mulnum(q.second, a_coef), coef2), term);
                     } else {
-                        // TODO: check if it's a Add
-                        Add::dict_add_term(d_, _mulnum(a_coef, q.second), term);
+                        _add_product_term(_mulnum(a_coef, q.second), term);
                     }
                 }
             }
@@ -281,7 +277,7 @@ public:
                         = down_cast<const Mul &>(*term).get_dict();
                     term = Mul::from_dict(one, std::move(d2));
                 }
-                Add::dict_add_term(d_, _mulnum(multiply, coef2), term);
+                _add_product_term(_mulnum(multiply, coef2), term);
             }
         }
     }
@@ -347,6 +343,14 @@ public:
                 Add::dict_add_term(d_, _mulnum(q.second, c), q.first);
             iaddnum(outArg(coeff),
                     _mulnum(down_cast<const Add &>(*term).get_coef(), c));
+        } else if (deep and has_power_of_sum(*term)) {
+            // A product or power of expanded terms re-created an integer
+            // power of a sum, e.g. sqrt(1 + y)*(1 + y)**(3/2) = (1 + y)**2
+            // or (x + y)**(-1)*(x + y)**(-1) = (x + y)**(-2): expand it
+            RCP<const Number> _multiply = multiply;
+            multiply = c;
+            term->accept(*this);
+            multiply = _multiply;
         } else {
             RCP<const Number> coef2;
             RCP<const Basic> t;
@@ -355,7 +359,40 @@ public:
         }
     }
 
+    // `term` is a product of expanded terms without numeric coefficient; it
+    // can have re-created a sum or an integer power of a sum
+    inline void _add_product_term(const RCP<const Number> &c,
+                                  const RCP<const Basic> &term)
+    {
+        if (deep) {
+            _coef_dict_add_term(c, term);
+        } else {
+            Add::dict_add_term(d_, c, term);
+        }
+    }
+
 private:
+    // `t` is a power or product that expand() would rewrite: it contains
+    // (sum)**n with an integer n other than -1
+    static bool is_power_of_sum(const Basic &base, const Basic &exp)
+    {
+        return is_a<Add>(base) and is_a<Integer>(exp)
+               and not down_cast<const Integer &>(exp).is_minus_one();
+    }
+    static bool has_power_of_sum(const Basic &t)
+    {
+        if (is_a<Pow>(t)) {
+            return is_power_of_sum(*down_cast<const Pow &>(t).get_base(),
+                                   *down_cast<const Pow &>(t).get_exp());
+        } else if (is_a<Mul>(t)) {
+            for (const auto &p : down_cast<const Mul &>(t).get_dict()) {
+                if (is_power_of_sum(*p.first, *p.second))
+                    return true;
+            }
+        }
+        return false;
+    }
+
     RCP<const Basic> expand_if_deep(const RCP<const Basic> &expr)
     {
         if (deep) {
